@@ -5,7 +5,7 @@ import (
 	"github.com/evanphx/json-patch/v5/zzverif/vx"
 )
 
-const nEqShapes = 22
+const nEqShapes = 23
 
 // eqShape builds value shape i with symbolic names (alphabet a..d) and leaves.
 func eqShape(i int, p string) *JV {
@@ -57,6 +57,8 @@ func eqShape(i int, p string) *JV {
 		return symEscStr(p + "e0")
 	case 21:
 		return jObj().withB(nm(0), symEscStr(p+"e0"))
+	case 22:
+		return jArr(jObj().withB(nm(0), n(0)).withB(nm(1), s(0)))
 	}
 	panic("eqShape")
 }
@@ -211,6 +213,7 @@ func H_Equal() {
 	vx.Assert(got == want, "C06/equal-iff-structural")
 	vx.Assert(got2 == want, "C06/symmetric")
 	vx.Assert(got == want, "C19/equal-iff-structural")
+	vx.Assert(got2 == want, "C19/equal-symmetric")
 	if got {
 		vx.Reach("equal/true")
 	} else {
